@@ -60,6 +60,37 @@ check("C03", "model_checking",
       "covered only as far as later stages of the check add them (see DESIGN.md).",
       "TLA+ denotational spec evaluated by TLC against real-code answers", "DESIGN.md §5 C03")
 
+check("C06", "model_checking",
+      "VoxelSurface.tla is an exact integer oracle for voxel worlds (boundary faces, inside/outside/on, squared distance, "
+      "nearest-point tie sets, face normals). Every non-empty subset of a 2x2x2 voxel grid and seeded larger worlds are "
+      "turned into meshes; MeshToSDF (SDF, PointSDF, NormalSDF, FaceSDF, mutually consistent) is probed on the "
+      "half-integer grid and TLC requires: sign iff inside, squared distance equal to the brute-force minimum over faces, "
+      "nearest point one of the minimisers, normal the normal of a nearest face.",
+      "Trusted: TLC, projection of distances to integers (x^2*4 with an exactness flag). Voxel worlds only at this stage; "
+      "curved primitives / 2-D fields as far as later stages add them.",
+      "TLA+ exact-geometry spec evaluated by TLC against real-code answers", "DESIGN.md §5 C06")
+check("C07", "model_checking",
+      "Same voxel worlds as mesh collider, area-density BVH, grouped-triangle collider and randomly nested joined "
+      "colliders. For rays in general position (decided by the spec) TLC requires count = callbacks = count without "
+      "callback = exact number of face hits, the reported (parameter, normal) multiset equal to the exact one, first = "
+      "minimum, odd count iff the origin is inside; ball queries against the exact squared distance; segment queries "
+      "against exact hits in [0,1]; ColliderContains against inside/outside; every query (incl. degenerate ones, box and "
+      "triangle queries) must equal the literal linear scan over the individual triangles. Directions are scaled by "
+      "2^-e (e up to 30) to cover non-unit directions.",
+      "Trusted: TLC, the projection t*4 -> integer with exactness flag. Ball tangency undecided; voxel worlds only at "
+      "this stage.",
+      "TLA+ exact-geometry spec evaluated by TLC against real-code answers", "DESIGN.md §5 C07")
+check("C08", "model_checking",
+      "Point trees: every multiset of <= 3-4 points of a small grid (duplicates, split-axis ties) and seeded larger ones, "
+      "queried from every half-grid point: TLC checks the real tree is a k-d tree of exactly the input multiset, "
+      "NearestNeighbor is a minimiser, KNN returns the k smallest distances as a sub-multiset, SphereCollision iff some "
+      "d^2 <= r^2 incl. exact tangency, Contains. Triangle hierarchies (MeshToCollider, BVH, grouped, nested joins, mesh "
+      "SDF): answers equal both the exact VoxelSurface oracle and the literal linear scan over individual triangles, for "
+      "rays (degenerate ones included), balls, segments, boxes and triangles.",
+      "Trusted: TLC; squared distances of half-integer points are exact in float64. render3d object hierarchies are "
+      "covered by the C20 check.",
+      "TLA+ brute-force specs evaluated by TLC against real-code answers", "DESIGN.md §5 C08")
+
 _pending = "check not built yet in this session (planned, see DESIGN.md §10)"
 for pid in ["C01","C02","C03","C04","C05","C06","C07","C08","C10","C11","C12","C13","C14","C15","C16","C17","C18","C20"]:
     if pid not in CHECKS:
